@@ -310,6 +310,7 @@ class _Run:
         self.elog = []          # universal event log
         self.rejected_on = {}   # (target, parameter) -> description of the last rejected attempt since its last accepted one
         self.pending = set()    # (target, parameter) whose asynchronous link has an evaluation in flight (applied at the next drain)
+        self.cancelled = {}     # (target, parameter) -> link whose pending evaluation a rejected no-loop assignment cancelled (known finding)
         self.unknown = set()    # asynchronous links whose latest evaluation was invalid: value not decided until a valid one completes
         self.step = 0
 
@@ -520,6 +521,10 @@ class _Run:
                     continue
                 if (ti, pn) in self.pending or ((ti, pn) in self.unknown and ref is not None):
                     continue
+                if (ti, pn) in self.cancelled:
+                    if self.cancelled[(ti, pn)] is ref:
+                        continue
+                    del self.cancelled[(ti, pn)]        # (assigned since: decided again)
                 got = getattr(t, pn)
                 if ref is not None and any(x[2] == id(ref) for x in self.stale_msub):
                     # known finding: a reference to a method that depends on 'sub.v' watches the Parameter objects it resolved to
@@ -582,6 +587,8 @@ class _Run:
                 if ref['k'] == 'abind':
                     # every synchronisation of the object re-evaluates its asynchronous references
                     self.pending.add((ti, pn))
+                    if (s, p) in ref_sources(ref) and self.cancelled.get((ti, pn)) is ref:
+                        del self.cancelled[(ti, pn)]
                     continue
                 if (s, p) in ref_sources(ref):
                     v = eval_ref(ref, self.msrc)
@@ -820,6 +827,22 @@ class _Run:
                 self.out.stats['probe.async_reference_assigned_without_running_loop'] += 1
             if noloop and not ok:
                 self.out.stats['fault.invalid_async_result_without_running_loop'] += 1
+                if (ti, pn) in self.pending and pn in self.links[ti]:
+                    # known finding: the parameter follows an asynchronous reference whose evaluation is under way (on a loop that
+                    # is not running at this moment); the rejected assignment cancels that evaluation when it installs the new
+                    # reference and puts the link back without starting it again, so the value the old link was about to deliver
+                    # never arrives (until its source changes again). Everything else about the attempt is checked as usual.
+                    from ..kernel import tolerated
+                    d_ = (f"T{ti}.{pn} follows {self.links[ti][pn]} with an evaluation pending; the rejected assignment of a coroutine "
+                          f"function without a running loop cancelled that evaluation and restored the link without restarting it")
+                    if 'C02.pending_evaluation_cancelled_by_rejected_assignment_without_loop' in tolerated('C02') or self.case['prop'] != 'C02':
+                        self.out.known.append(('C02.pending_evaluation_cancelled_by_rejected_assignment_without_loop', d_))
+                    else:
+                        self.viol('C02.pending_evaluation_cancelled_by_rejected_assignment_without_loop', d_)
+                        return
+                    self.pending.discard((ti, pn))
+                    # (undecided until a parameter this very link depends on changes, or the parameter is assigned)
+                    self.cancelled[(ti, pn)] = self.links[ti][pn]
             if self.attempt(assign, ok, f"link T{ti}.{pn} <- {ref}{' (no running loop)' if noloop else ''} (resolves to {v!r})", ti, pn):
                 self.links[ti][pn] = ref
                 if is_async and not noloop:
